@@ -76,11 +76,15 @@ impl FeoxStore {
         let start = std::time::Instant::now();
         let mut observed = None;
         loop {
+            #[cfg(feoxdb_verif)]
+            crate::verif::sched::point("patch_loop");
             let record = self
                 .hash_table
                 .read(key, |_, record| record.clone())
                 .ok_or(FeoxError::KeyNotFound)?;
             let observed = observed.get_or_insert_with(|| Arc::clone(&record));
+            #[cfg(feoxdb_verif)]
+            crate::verif::sched::point("patch_check1");
             if !Arc::ptr_eq(observed, &record) && timestamp_value <= observed.retirement_timestamp()
             {
                 return Err(FeoxError::OlderTimestamp);
@@ -91,6 +95,8 @@ impl FeoxStore {
             }
 
             let (current_value, _, source) = self.resolve_value(key, record)?;
+            #[cfg(feoxdb_verif)]
+            crate::verif::sched::point("patch_check2");
             if !Arc::ptr_eq(observed, &source) && timestamp_value <= observed.retirement_timestamp()
             {
                 return Err(FeoxError::OlderTimestamp);
@@ -98,6 +104,8 @@ impl FeoxStore {
             let new_value = crate::utils::json_patch::apply_json_patch(&current_value, patch)?;
             self.validate_key_value(key, &new_value)?;
             crate::test_hooks::pause_at(crate::test_hooks::AFTER_JSON_PATCH_READ);
+            #[cfg(feoxdb_verif)]
+            crate::verif::sched::point("patch_guard");
 
             if self.replace_record_if_current(key, &source, &new_value, timestamp, 0, start)? {
                 return Ok(());
